@@ -39,7 +39,7 @@ def plan(tier):
                 'values under each policy; every (identity x object x addressing operation) attempted '
                 'after random multi-client history steps; a cell is (probe, object type, policy shape, '
                 'identity class, table decision, outcome)',
-        'min_monitor': {'attempts_not_granted': 2000, 'denials_compared_with_never_issued': 2000,
+        'min_monitor': {'policy_files_loaded': 10, 'attempts_not_granted': 2000, 'denials_compared_with_never_issued': 2000,
                         'locates_checked': 50, 'policies_replaced_at_run_time': 20, 'concurrent_foreign_items_checked': 50,
                         'concurrent_yields_injected': 500},
         'assumptions': ['kv/model.py:granted is the most permissive reading of the property '
